@@ -702,3 +702,16 @@ func DFTFromCount(n, n1 int) (p, q float64) {
 	v := (float64(n1) - n0) / math.Sqrt(0.95*0.05*float64(n)/3.8)
 	return normalPQ(v)
 }
+
+// Pack is the inverse of Bits for lengths that are multiples of 8 (most significant bit first).
+func Pack(bits []bool) []byte {
+	out := make([]byte, len(bits)/8)
+	for i := range out {
+		for j := 0; j < 8; j++ {
+			if bits[8*i+j] {
+				out[i] |= 0x80 >> uint(j)
+			}
+		}
+	}
+	return out
+}
